@@ -19,7 +19,11 @@ MANIFEST = {
              'every observation after every step of every guarded history), C01_exposed_readonly, C01_container_arrays_readonly, '
              'C01_caller_isolation, C01_pickle_roundtrip / C01_deepcopy_roundtrip (same content, read-only, private), '
              'C01_setstate_refreezes_every_array_slot (about the table regenerated from the source: every ndarray slot of every class is re-frozen), C01_no_protect_site_lost / C01_thaw_sites_whitelisted '
-             '(census of the ~160 freeze sites regenerated from the AST vs the pinned table). Refuted/C01.v: the hypotheses of `guarded` about caller arrays are '
+             '(census of the ~160 freeze sites regenerated from the AST vs the pinned table), C01_positions_allocator_publishes_frozen (AST audit of '
+             'util.PositionsAllocator: every (re)allocation of the process-wide positions array is frozen before it is published). A second model '
+             '(SF/HeapGrow.v) for GROWABLE MEMBERS (block list of a TypeBlocks, label list of IndexGO / IndexHierarchyGO; steps GNew / GFrom route / GGrow): '
+             'C01_growing_a_source_never_changes_a_static_container (invariant: a grow-only container shares member lists with nobody) and '
+             'C01_grow_refines_value_semantics; refuted witness C01_share_with_growable_refuted. Refuted/C01.v: the hypotheses of `guarded` about caller arrays are '
              'necessary (read-only alias, own_data alias). Correspondence: (1) random + exhaustive '
              'constructor-route histories executed on the real library through public calls, whole observation trace and np.shares_memory matrix '
              'compared with M and S inside Coq; (2) EXHAUSTIVE INTERFACE ENUMERATION: every member listed by static-frame\'s own InterfaceSummary for '
@@ -27,7 +31,12 @@ MANIFEST = {
              'assignment / iterator / accessor nodes, crossed with a container zoo (every dtype kind, block layouts, 0-sized, flat / hierarchical / '
              'date labels) and per-parameter argument pools (valid and failing, writeable ndarrays wherever an array is accepted), deep snapshot of '
              'the receiver and of bystanders sharing its memory before / after every call, flags and aliasing of every ndarray reachable from every '
-             'result, pickle / deepcopy round trips per array slot, mutation syntax.'),
+             'result, pickle / deepcopy round trips per array slot, mutation syntax; (3) LARGE phase: containers with 1025, 5000 and (mid-run) 25000 rows are '
+             'created first so that util.PositionsAllocator regrows, then small label-mapped indices / hierarchies / Series / Frames are created and every array '
+             'they hold and hand out is checked, and every later stratum runs in that process state; (4) grow strata: static containers built FROM grow-only ones '
+             '(and vice versa) through every constructor / to_frame* / from_concat / copy / rename / selection / pickle / deepcopy route, then every mutator '
+             '(setitem, extend, extend_items, append) on the grow-only side, whole member trace compared with gM and gS inside Coq, plus a Python-side product of '
+             '6 source kinds x 27 / 12 routes x mutators (hierarchical and date labels, rows / reductions / columns taken from a FrameGO, IndexGO handed in as labels).'),
     'note': ('trusted: Coq kernel, hand-written model SF/Heap.v (tied to the code by the trace correspondence), AST extractor generate() in this module, '
              'harness. NumPy facts are modelling assumptions validated only by the correspondence runs. PARTIAL: that each of the ~160 freeze sites '
              'follows the protocol is decided by the enumeration (Python-side observation, argument pools sampled in rotation) and by the census '
@@ -37,10 +46,12 @@ MANIFEST = {
 }
 PROPERTY_FILES = ['Properties/C01.v']
 REFUTED_FILES = ['Refuted/C01.v']
-MODEL_FILES = ['SF/Heap.v', 'SF/HeapAudit.v', 'Gen/Gen_c01.v']
+MODEL_FILES = ['SF/Heap.v', 'SF/HeapAudit.v', 'SF/HeapGrow.v', 'Gen/Gen_c01.v']
 GENERATED_FILES = ['Gen/Gen_c01.v']
-IMPORTS = 'Require Import SF.Prelude SF.Heap Gen.Gen_c01.\nLocal Open Scope nat_scope.'
-RULE = ('heap strata: a history is a list of steps of the model alphabet (SNew / SView / SFreeze / SWrite / SConstruct / SDerive / SExpose / SFail), each '
+IMPORTS = 'Require Import SF.Prelude SF.Heap SF.HeapGrow Gen.Gen_c01.\nLocal Open Scope nat_scope.'
+RULE = ('grow strata: a history over GNew / GFrom / GGrow, each step a public call; the model route is GShare only between two static containers; '
+        'non-trivial = some container is built from another and something grows afterwards. large-phase: one case per freshly built small container after '
+        'each regrow of the allocator; non-trivial = the allocator really regrew. heap strata: a history is a list of steps of the model alphabet (SNew / SView / SFreeze / SWrite / SConstruct / SDerive / SExpose / SFail), each '
         'executed on the real library by a public call; the stratum of a history (guarded, read-only alias, own_data alias, pickle of an Index) is decided '
         'by bookkeeping of the HISTORY, never from the output; non-trivial = builds a container from a caller-held array and then writes / exposes / '
         'derives; distinct = distinct step list. api strata: one case per (zoo container, interface member path, check) where check is one of '
@@ -90,6 +101,23 @@ def obs_lit(conts, callers):
 # =============================================================================== the interpreter of histories
 def _ints(a):
     return [int(x) for x in np.asarray(a).reshape(-1).tolist()]
+
+
+def _view_sel(a, parent):
+    '''Positions of the 1-D array `a` inside the 1-D array `parent` when a is a view of parent's memory, else None.'''
+    if a.ndim != 1 or parent.ndim != 1 or a.dtype != parent.dtype or not parent.size or not a.size or not np.shares_memory(a, parent):
+        return None
+    pa, ps = parent.__array_interface__['data'][0], parent.strides[0]
+    aa, as_ = a.__array_interface__['data'][0], a.strides[0]
+    if ps == 0:
+        return None
+    out = []
+    for i in range(a.shape[0]):
+        q, r = divmod(aa + i * as_ - pa, ps)
+        if r or not 0 <= q < parent.shape[0]:
+            return None
+        out.append(q)
+    return out
 
 
 class Sim:
@@ -145,9 +173,7 @@ class Sim:
     def shares(self):
         '''np.shares_memory of every container slot with every caller array; None (do not care) when either aliases the
         library's global PositionsAllocator buffer (auto-index labels / positions), which the model abstracts as private arrays.'''
-        from static_frame.core.util import PositionsAllocator
-        g = PositionsAllocator._array
-        taint = lambda a: bool(np.shares_memory(a, g))
+        taint = _allocator_tainted
         return [[[None if (taint(a) or taint(c)) else bool(np.shares_memory(a, c)) for c in self.callers] for a in self.slots(k, o)] for k, o in self.conts]
 
     def model(self, mstep):
@@ -324,7 +350,17 @@ class Sim:
         '''data_dsrcs: dsrc literals of the leading data slots; every remaining slot is a fresh computed array (DVals content).'''
         self.conts.append((kind, obj))
         arrs = self.slots(kind, obj)
-        ds = list(data_dsrcs) + [f'DVals {zl(_ints(a))}' for a in arrs[len(data_dsrcs):]]
+        ds = list(data_dsrcs)
+        parent = self.slots(*self.conts[c])
+        for a in arrs[len(data_dsrcs):]:
+            # auxiliary slots (labels / positions of the axes): recorded as a view when the array really is a view of a parent slot
+            form = None
+            for j, pa in enumerate(parent):
+                sel = _view_sel(a, pa)
+                if sel is not None and not _allocator_tainted(a):
+                    form = f'DView {j} {natl(sel)}'
+                    break
+            ds.append(form or f'DVals {zl(_ints(a))}')
         md = [(('view', int(d.split()[1])) if d.startswith('DView') else ('fresh',)) for d in ds]
         self.emit(f'SDerive {c} [' + '; '.join(ds) + ']', f'c{len(self.conts) - 1} = {desc}', mstep=('derive', c, md))
 
@@ -1330,6 +1366,11 @@ class Explorer:
             self.names = [n for n in self.names if n not in ('__matmul__', '__rmatmul__')]
         self.base = self.snap()
         self.family_arrays = [a for _, c in self.family for _, a, _ in walk_arrays(c)]
+        self.stat('<construction>', True)
+        for who, c in self.family:
+            w = [p for p, a, _ in walk_arrays(c, who) if a.flags.writeable]
+            if w:
+                self.flag('<construction>', 'container-arrays-readonly', R.text, f'{who} holds writeable arrays right after construction: {w[:4]}')
 
     def snap(self):
         out = []
@@ -1608,9 +1649,89 @@ def assignment_cases(ctx, name, text, R):
                    py_fail=why, tags={'check': 'assignment-syntax', 'member': member, 'cls': R.cls.__name__, 'zoo': name}, key=f'{name}|assign|{member}')
 
 
+_ALLOC_ARRAYS = []      # every shared array util.PositionsAllocator has published in this process (it is replaced when it regrows)
+
+
+def _allocator_arrays():
+    from static_frame.core.util import PositionsAllocator
+    cur = PositionsAllocator._array
+    if not any(cur is a for a in _ALLOC_ARRAYS):
+        _ALLOC_ARRAYS.append(cur)
+    return _ALLOC_ARRAYS
+
+
+def _allocator_tainted(a):
+    return any(np.shares_memory(a, g) for g in _allocator_arrays())
+
+
 def _positions_global():
     from static_frame.core.util import PositionsAllocator
+    _allocator_arrays()
     return PositionsAllocator._array
+
+
+def large_phase_cases(ctx, rows, when):
+    '''Make util.PositionsAllocator REGROW (a container with more rows than it has cached so far), then build small containers whose
+    indices are label-mapped and check what they hand out: history-dependent state shared by every index of the process.'''
+    import static_frame as sf
+    from static_frame.core.util import PositionsAllocator
+    _allocator_arrays()
+    size_before = PositionsAllocator._size
+    big = sf.Series(np.arange(rows))
+    big_frame = sf.Frame(np.arange(rows * 2).reshape(rows, 2), index=[f'r{i}' for i in range(rows)])
+    _allocator_arrays()
+    regrown = PositionsAllocator._size != size_before
+    ctx.count(f'large:{when}:rows={rows}:regrown={regrown}')
+    fresh = [
+        ("sf.Index(('a','b','c','d'))", lambda: sf.Index(('a', 'b', 'c', 'd'))),
+        ("sf.IndexGO(('a','b','c'))", lambda: sf.IndexGO(('a', 'b', 'c'))),
+        ("sf.IndexDate(('2020-01-01','2020-01-02'))", lambda: sf.IndexDate(('2020-01-01', '2020-01-02'))),
+        ("sf.IndexHierarchy.from_product(('a','b'),(1,2))", lambda: sf.IndexHierarchy.from_product(('a', 'b'), (1, 2))),
+        ("sf.IndexHierarchy.from_labels([('a',1,'x'),('a',2,'x'),('b',1,'y')])", lambda: sf.IndexHierarchy.from_labels([('a', 1, 'x'), ('a', 2, 'x'), ('b', 1, 'y')])),
+        ("sf.Series((1,2,3), index=tuple('xyz'))", lambda: sf.Series((1, 2, 3), index=tuple('xyz'))),
+        ("sf.Series((1,2,3))", lambda: sf.Series((1, 2, 3))),
+        ("sf.Frame.from_records([(1,2),(3,4)], columns=('p','q'), index=('r','s'))", lambda: sf.Frame.from_records([(1, 2), (3, 4)], columns=('p', 'q'), index=('r', 's'))),
+        ("sf.FrameGO.from_records([(1,2),(3,4)], columns=('p','q'))", lambda: sf.FrameGO.from_records([(1, 2), (3, 4)], columns=('p', 'q'))),
+        (f'the {rows}-row Series itself', lambda: big), (f'the {rows}-row Frame itself (str index)', lambda: big_frame),
+    ]
+    made = []
+    for text, fn in fresh:
+        obj = fn()
+        made.append((text, obj))
+        w = [p for p, a, _ in walk_arrays(obj) if a.flags.writeable]
+        why = None
+        if w:
+            why = f'after a {rows}-row container was created in this process, {text} holds writeable arrays: {w[:4]}'
+        else:
+            # every positions array handed out must reject a write
+            idxs = [obj] if not hasattr(obj, 'index') else [obj.index] + ([obj.columns] if hasattr(obj, 'columns') else [])
+            for ix in idxs:
+                pos = ix.positions
+                if len(pos):
+                    try:
+                        pos[0] = pos[0]
+                        why = f'after a {rows}-row container was created in this process, {text}: positions accepts a write'
+                    except ValueError:
+                        pass
+        yield Case('api:large-phase', {'phase': when, 'first': f'sf.Series(np.arange({rows})); sf.Frame(np.arange({rows * 2}).reshape({rows}, 2), index=[str labels])',
+                                       'then': text, 'allocator_regrown': regrown, 'writeable_arrays': w[:6]},
+                   py_fail=why, tags={'check': 'container-arrays-readonly', 'member': '<construction after allocator regrow>', 'zoo': text},
+                   nontrivial=regrown, key=f'large|{when}|{rows}|{text}')
+    # positions of different indices must be independent observations: nothing written through one may show in another
+    snaps = [observe_container(o) for _, o in made]
+    for text, obj in made:
+        ix = obj if not hasattr(obj, 'index') else obj.index
+        pos = ix.positions
+        if len(pos) > 1:
+            try:
+                pos[0], pos[1] = 1, 0
+            except ValueError:
+                pass
+    after = [observe_container(o) for _, o in made]
+    changed = [made[i][0] for i in range(len(made)) if snaps[i] != after[i]]
+    yield Case('api:large-phase', {'phase': when, 'rows': rows, 'attempt': 'swap positions[0], positions[1] through every index handed out', 'changed': changed},
+               py_fail=None if not changed else f'after a {rows}-row container was created, writing through .positions changed {changed[:3]}',
+               tags={'check': 'state-unchanged', 'member': '<positions write after allocator regrow>'}, nontrivial=regrown, key=f'large|{when}|{rows}|swap')
 
 
 def enumeration_cases(ctx):
@@ -1626,7 +1747,12 @@ def enumeration_cases(ctx):
         coverage = {}
         with warnings.catch_warnings():
             warnings.simplefilter('ignore')
-            for name, text, factory in zoo(ctx.tier):
+            recipes = zoo(ctx.tier)
+            yield from large_phase_cases(ctx, 1025, 'first')
+            yield from large_phase_cases(ctx, 5000, 'first')
+            for zi, (name, text, factory) in enumerate(recipes):
+                if zi == len(recipes) // 2:
+                    yield from large_phase_cases(ctx, 25000, 'middle')
                 obj, sources = factory()
                 R = Recv(name, text, obj, sources)
                 yield from roundtrip_cases(ctx, name, text, R)
@@ -1723,10 +1849,248 @@ def regression_cases(ctx):
                    py_fail=fn(), tags={'check': 'regression', 'regression': name}, key='regression|' + name)
 
 
+# =============================================================================== growable members: static containers built from grow-only ones
+class GSim:
+    '''Histories over the alphabet of SF/HeapGrow.v executed on the real library: GNew / GFrom / GGrow.'''
+
+    FRAME_ROUTES = {   # name -> (callable(sf, src) -> container, result class or None = class of the source)
+        'ctor-Frame': (lambda sf, src: sf.Frame(src), 'Frame'), 'ctor-FrameHE': (lambda sf, src: sf.FrameHE(src), 'FrameHE'),
+        'ctor-FrameGO': (lambda sf, src: sf.FrameGO(src), 'FrameGO'),
+        'to_frame': (lambda sf, src: src.to_frame(), 'Frame'), 'to_frame_he': (lambda sf, src: src.to_frame_he(), 'FrameHE'),
+        'to_frame_go': (lambda sf, src: src.to_frame_go(), 'FrameGO'),
+        'from_concat-Frame': (lambda sf, src: sf.Frame.from_concat((src,)), 'Frame'), 'from_concat-FrameGO': (lambda sf, src: sf.FrameGO.from_concat((src,)), 'FrameGO'),
+        'iloc[:]': (lambda sf, src: src.iloc[:], None), "rename('n')": (lambda sf, src: src.rename('n'), None),
+        'ctor-Frame(index=,columns=)': (lambda sf, src: sf.Frame(src, index=src.index, columns=src.columns), 'Frame'),
+        'deepcopy': (lambda sf, src: copy.deepcopy(src), None), 'pickle': (lambda sf, src: pickle.loads(pickle.dumps(src)), None),
+    }
+    INDEX_ROUTES = {
+        'ctor-Index': (lambda sf, src: sf.Index(src), 'Index'), 'ctor-IndexGO': (lambda sf, src: sf.IndexGO(src), 'IndexGO'),
+        'copy()': (lambda sf, src: src.copy(), None), "rename('n')": (lambda sf, src: src.rename('n'), None),
+        'iloc[:]': (lambda sf, src: src.iloc[:], None), 'ctor-Index(values)': (lambda sf, src: sf.Index(src.values), 'Index'),
+        'deepcopy': (lambda sf, src: copy.deepcopy(src), None), 'pickle': (lambda sf, src: pickle.loads(pickle.dumps(src)), None),
+    }
+
+    def __init__(self):
+        import static_frame as sf
+        self.sf = sf
+        self.conts = []      # (kind, object)
+        self.steps, self.desc, self.trace, self.first, self.violations = [], [], [], [], []
+        self.fresh = 100
+
+    def _static(self, obj):
+        return bool(getattr(obj, 'STATIC', True))
+
+    def observe_one(self, kind, obj):
+        try:
+            if kind == 'frame':
+                cols = [int(x) for x in obj.columns.values.tolist()]
+                v = obj.values
+                blocks = [int(x) for x in v[0].tolist()] if v.shape[0] else []
+                if tuple(obj.shape) != (v.shape[0], len(blocks)) or len(obj._blocks._dtypes) != len(blocks):
+                    blocks = blocks + [-1]
+                return (self._static(obj), [cols, blocks])
+            return (self._static(obj), [[int(x) for x in obj.values.tolist()]])
+        except Exception as e:  # noqa: an observation that raises is itself a change
+            return (self._static(obj), [[-99]])
+
+    def emit(self, step, desc, ok):
+        self.steps.append(step)
+        self.desc.append(desc)
+        obs = [self.observe_one(k, o) for k, o in self.conts]
+        self.trace.append((ok, obs))
+        for i, o in enumerate(obs):
+            if i >= len(self.first):
+                self.first.append(o)
+            elif o != self.first[i]:
+                if o[0]:
+                    self.violations.append(f'static container c{i} ({type(self.conts[i][1]).__name__}) changed after step {len(self.steps) - 1} ({desc}): {self.first[i][1]} -> {o[1]}')
+                self.first[i] = o
+
+    def new(self, kind, static, members):
+        sf = self.sf
+        if kind == 'frame':
+            cls = sf.Frame if static else sf.FrameGO
+            obj = cls(np.array([members, members], dtype=np.int64).reshape(2, len(members)), columns=members) if members else cls(index=(0, 1))
+            lists = [members, members]
+            txt = f'sf.{cls.__name__}(np.array([{members}, {members}]), columns={members})'
+        else:
+            cls = sf.Index if static else sf.IndexGO
+            obj = cls(members)
+            lists = [members]
+            txt = f'sf.{cls.__name__}({members})'
+        self.conts.append((kind, obj))
+        self.emit(f'GNew {lit.b(static)} [' + '; '.join(zl(m) for m in lists) + ']', f'c{len(self.conts) - 1} = {txt}', True)
+
+    def derive(self, c, route):
+        kind, src = self.conts[c]
+        fn, _ = (self.FRAME_ROUTES if kind == 'frame' else self.INDEX_ROUTES)[route]
+        try:
+            obj = fn(self.sf, src)
+        except Exception as e:  # noqa
+            self.emit('GFail', f'{route} of c{c} raises {type(e).__name__}', False)
+            return
+        st = self._static(obj)
+        # the model route: member lists may be kept only between two static containers (unobservable there); copied otherwise
+        r = 'GShare' if (st and self._static(src)) else 'GCopy'
+        self.conts.append((kind, obj))
+        self.emit(f'GFrom {lit.b(st)} {c} {r}', f'c{len(self.conts) - 1} = <{route}>(c{c})  # {type(src).__name__} -> {type(obj).__name__}', True)
+
+    def grow(self, c, how):
+        kind, obj = self.conts[c]
+        self.fresh += 1
+        m = self.fresh
+        try:
+            if kind == 'frame':
+                if how == 'setitem':
+                    obj[m] = np.full(obj.shape[0], m, dtype=np.int64)
+                else:
+                    obj.extend(self.sf.Frame(np.full((obj.shape[0], 1), m, dtype=np.int64), index=obj.index, columns=(m,)))
+            else:
+                if how == 'setitem':
+                    obj.append(m)
+                else:
+                    obj.extend((m,))
+            ok = True
+        except Exception:  # noqa
+            ok = False
+        verb = {'frame': {'setitem': f'c{c}[{m}] = np.full(2, {m})', 'extend': f'c{c}.extend(Frame with column {m})'},
+                'index': {'setitem': f'c{c}.append({m})', 'extend': f'c{c}.extend(({m},))'}}[kind][how]
+        self.emit(f'GGrow {c} {lit.z(m)}%Z', verb, ok)
+
+    def case(self, stratum):
+        h = '[' + '; '.join(self.steps) + ']'
+        t = '[' + '; '.join(f'({lit.b(ok)}, [' + '; '.join(f'({lit.b(st)}, [' + '; '.join(zl(l) for l in ls) + '])' for st, ls in obs) + '])'
+                            for ok, obs in self.trace) + ']'
+        return Case(stratum, {'replay': ['import numpy as np, static_frame as sf, pickle, copy'] + self.desc, 'observed_final': self.trace[-1][1] if self.trace else None},
+                    m=f'(let H := {h} in gtrace_eqb (gtrace gM_step gw0 H) {t} && gguarded gw0 H)%nat',
+                    s=f'(gtrace_eqb (gtrace gS_step gw0 {h}) {t})%nat',
+                    py_fail='; '.join(self.violations[:2]) or None, tags={'check': 'grow-source', 'stratum': stratum},
+                    nontrivial=any(st.startswith('GGrow') for st in self.steps) and any(st.startswith('GFrom') for st in self.steps), key=stratum + '|' + h + '|' + '|'.join(self.desc))
+
+
+def grow_cases(ctx):
+    '''Static containers built FROM grow-only ones (and grow-only ones built from static ones) through every route, then the
+    grow-only side grows through every mutator, then everything is observed again.'''
+    # 1. exhaustive: kind x source class x route x (grow the source | grow the result | both) x mutator
+    for kind, routes in (('frame', GSim.FRAME_ROUTES), ('index', GSim.INDEX_ROUTES)):
+        for src_static in (False, True):
+            for route in routes:
+                for how in ('setitem', 'extend'):
+                    g = GSim()
+                    g.new(kind, src_static, [1, 2])
+                    g.derive(0, route)
+                    g.grow(0, how)
+                    if len(g.conts) > 1:
+                        g.grow(1, how)
+                        g.derive(0, route)
+                        g.grow(0, 'extend' if how == 'setitem' else 'setitem')
+                        g.grow(1, how)
+                    ctx.count(f'grow:{kind}:{route}')
+                    yield g.case('grow:exhaustive-routes')
+    # 2. random histories
+    for i in range(ctx.n(120, 1500)):
+        g = GSim()
+        rng = ctx.rng
+        kind = rng.choice(['frame', 'index'])
+        routes = list(GSim.FRAME_ROUTES if kind == 'frame' else GSim.INDEX_ROUTES)
+        g.new(kind, rng.random() < 0.4, rng.sample(range(1, 9), rng.choice([0, 1, 2, 3])) if kind == 'index' or rng.random() < 0.9 else [])
+        for _ in range(rng.choice([3, 4, 5, 6, 7])):
+            r = rng.random()
+            c = rng.randrange(len(g.conts))
+            if r < 0.1:
+                g.new(kind, rng.random() < 0.5, rng.sample(range(1, 9), 2))
+            elif r < 0.55:
+                g.derive(c, rng.choice(routes))
+            else:
+                g.grow(c, rng.choice(['setitem', 'extend']))
+        yield g.case('grow:random')
+    yield from grow_api_cases(ctx)
+
+
+def grow_api_cases(ctx):
+    '''Python-side only: more source classes and routes than the model alphabet names (hierarchical labels, Series / rows / reductions
+    taken from a FrameGO, an IndexGO handed in as labels of a static container), each followed by every way of growing the source.'''
+    import static_frame as sf
+
+    def fgo(cols):
+        return sf.FrameGO(np.arange(3 * len(cols)).reshape(3, len(cols)), columns=cols, index=tuple('xyz'))
+
+    sources = [
+        ('FrameGO', lambda: fgo(('a', 'b')), [('setitem', lambda o: o.__setitem__('n1', (7, 8, 9))), ('extend-frame', lambda o: o.extend(sf.Frame(np.full((3, 2), 5), index=tuple('xyz'), columns=('n2', 'n3')))),
+                                              ('extend-series', lambda o: o.extend(sf.Series((1, 2, 3), index=tuple('xyz'), name='n4'))), ('extend_items', lambda o: o.extend_items((('n5', (1, 2, 3)),)))]),
+        ('FrameGO hierarchical columns', lambda: sf.FrameGO(np.arange(6).reshape(3, 2), columns=sf.IndexHierarchyGO.from_labels([('a', 1), ('a', 2)]), index=tuple('xyz')),
+         [('setitem', lambda o: o.__setitem__(('b', 1), (7, 8, 9)))]),
+        ('FrameGO zero columns', lambda: sf.FrameGO(index=tuple('xyz')), [('setitem', lambda o: o.__setitem__('n1', (7, 8, 9)))]),
+        ('IndexGO', lambda: sf.IndexGO(('a', 'b', 'c')), [('append', lambda o: o.append('n1')), ('extend', lambda o: o.extend(('n2', 'n3')))]),
+        ('IndexDateGO', lambda: sf.IndexDateGO(('2020-01-01', '2020-01-02')), [('append', lambda o: o.append('2020-02-01'))]),
+        ('IndexHierarchyGO', lambda: sf.IndexHierarchyGO.from_product(('a', 'b'), (1, 2)), [('append', lambda o: o.append(('c', 1))), ('extend', lambda o: o.extend(sf.IndexHierarchy.from_labels([('d', 1), ('d', 2)])))]),
+    ]
+    frame_routes = [
+        ('sf.Frame(src)', lambda s: sf.Frame(s)), ('sf.FrameHE(src)', lambda s: sf.FrameHE(s)), ('sf.Frame(src, name="n")', lambda s: sf.Frame(s, name='n')),
+        ('sf.Frame(src, index=src.index)', lambda s: sf.Frame(s, index=s.index)), ('sf.Frame(src, columns=src.columns)', lambda s: sf.Frame(s, columns=s.columns)),
+        ('src.to_frame()', lambda s: s.to_frame()), ('src.to_frame_he()', lambda s: s.to_frame_he()), ('sf.Frame.from_concat((src,))', lambda s: sf.Frame.from_concat((s,))),
+        ('sf.Frame.from_concat((src, src), axis=0, index=sf.IndexAutoFactory)', lambda s: sf.Frame.from_concat((s, s), axis=0, index=sf.IndexAutoFactory)),
+        ('sf.Frame.from_items(src.items())', lambda s: sf.Frame.from_items(s.items())), ('sf.Frame.from_overlay((src,))', lambda s: sf.Frame.from_overlay((s,))),
+        ('src.columns (static copy) sf.Index(src.columns)', lambda s: sf.Index(s.columns) if s.columns.depth == 1 else sf.IndexHierarchy(s.columns)),
+        ('src.iloc[0]', lambda s: s.iloc[0]), ('src.loc["x"]', lambda s: s.loc['x']), ('src.sum()', lambda s: s.sum()), ('src.dtypes', lambda s: s.dtypes),
+        ('src.iloc[:, 0]', lambda s: s.iloc[:, 0]), ('src.transpose().to_frame()', lambda s: s.transpose().to_frame()), ('src.T.index', lambda s: s.T.index),
+        ('sf.Series(src.iloc[0])', lambda s: sf.Series(s.iloc[0])), ('src.to_frame().relabel(columns=src.columns)', lambda s: s.to_frame().relabel(columns=s.columns)),
+        ('sf.Frame(src.values, columns=src.columns, index=src.index)', lambda s: sf.Frame(s.values, columns=s.columns, index=s.index)),
+        ('sf.Series(range(n), index=src.columns) [must raise or copy]', lambda s: sf.Series(range(len(s.columns)), index=s.columns)),
+        ('copy.deepcopy(src).to_frame()', lambda s: copy.deepcopy(s).to_frame()), ('src.reindex(columns=src.columns).to_frame()', lambda s: s.reindex(columns=s.columns).to_frame()),
+        ('sf.Frame.from_pandas(src.to_pandas())', lambda s: sf.Frame.from_pandas(s.to_pandas())), ('src.iter_series(axis=0) first', lambda s: next(iter(s.iter_series(axis=1)))),
+    ]
+    index_routes = [
+        ('sf.Index(src)', lambda s: sf.Index(s) if s.depth == 1 else sf.IndexHierarchy(s)), ('src.copy() -> static', lambda s: (sf.Index if s.depth == 1 else sf.IndexHierarchy)(s.copy())),
+        ('src.iloc[:] -> static class', lambda s: (sf.Index if s.depth == 1 else sf.IndexHierarchy)(s.iloc[:])),
+        ('sf.Series(range(n), index=src) [must raise or copy]', lambda s: sf.Series(range(len(s)), index=s)),
+        ('sf.Frame(index=src) [must raise or copy]', lambda s: sf.Frame(index=s)), ('sf.Frame(np.zeros((2, n)), columns=src)', lambda s: sf.Frame(np.zeros((2, len(s))), columns=s)),
+        ('sf.FrameGO(np.zeros((2, n)), columns=src).to_frame()', lambda s: sf.FrameGO(np.zeros((2, len(s))), columns=s).to_frame()),
+        ('src.to_series()', lambda s: s.to_series() if s.depth == 1 else s.to_frame()), ('sf.Index(src.values)', lambda s: sf.Index(s.values) if s.depth == 1 else sf.IndexHierarchy.from_labels(s.values)),
+        ('src.union(src)', lambda s: s.union(s)), ('copy.deepcopy(src) -> static', lambda s: (sf.Index if s.depth == 1 else sf.IndexHierarchy)(copy.deepcopy(s))),
+        ('src.rename("n") -> static', lambda s: (sf.Index if s.depth == 1 else sf.IndexHierarchy)(s.rename('n'))),
+    ]
+    for sname, make, growers in sources:
+        routes = frame_routes if sname.startswith('Frame') else index_routes
+        for rname, route in routes:
+            for gname, grower in growers:
+                src = make()
+                try:
+                    out = route(src)
+                except Exception as e:  # noqa: a route that refuses a grow-only argument is fine
+                    ctx.count('grow-api:route-raises')
+                    yield Case('api:grow-source', {'source': sname, 'route': rname, 'raised': type(e).__name__}, tags={'check': 'grow-source', 'source': sname, 'route': rname},
+                               nontrivial=False, key=f'growapi|{sname}|{rname}|{gname}')
+                    continue
+                static = getattr(out, 'STATIC', True)
+                before = observe_container(out)
+                w_before = [p for p, a, _ in walk_arrays(out) if a.flags.writeable]
+                try:
+                    grower(src)
+                    grew = True
+                except Exception:  # noqa
+                    grew = False
+                try:
+                    after = observe_container(out)
+                except Exception as e:  # noqa
+                    after = ('RAISES', type(e).__name__)
+                why = None
+                if static and after != before:
+                    why = f'{sname}: out = {rname}; then the source grows by {gname}: the static {type(out).__name__} changed (shape / labels / values / dtypes)'
+                elif w_before:
+                    why = f'{sname}: {rname} holds writeable arrays {w_before[:3]}'
+                ctx.count('grow-api:' + ('grew' if grew else 'grow-raised'))
+                yield Case('api:grow-source', {'source': sname, 'route': rname, 'then': gname, 'source_grew': grew, 'result_static': static, 'changed': after != before},
+                           py_fail=why, tags={'check': 'grow-source', 'source': sname, 'route': rname}, nontrivial=grew and static, key=f'growapi|{sname}|{rname}|{gname}')
+
+
 def cases(ctx):
-    yield from regression_cases(ctx)
-    yield from heap_cases(ctx)
+    # the enumeration starts with the 'large' phase (PositionsAllocator regrows): every later stratum runs in a process whose shared
+    # positions array has been replaced, which is the state a long-lived user process is in
     yield from enumeration_cases(ctx)
+    yield from regression_cases(ctx)
+    yield from grow_cases(ctx)
+    yield from heap_cases(ctx)
 
 
 # =============================================================================== regenerated from the source on every run
@@ -1847,6 +2211,59 @@ def freeze_census(repo):
     return sorted((k, v[0], v[1]) for k, v in rows.items())
 
 
+def allocator_audit(repo):
+    '''util.PositionsAllocator publishes one shared array to every index of the process: wherever `_array` is (re)assigned, the NEXT
+    statements of the same block must freeze that very target, and get() must return a slice of it. True / False; raises when the class
+    no longer has this shape.'''
+    import ast
+    tree = _parse(repo, 'util.py')
+    cls = next((n for n in tree.body if isinstance(n, ast.ClassDef) and n.name == 'PositionsAllocator'), None)
+    if cls is None:
+        raise ValueError('util.PositionsAllocator not found')
+    get = next((n for n in cls.body if isinstance(n, ast.FunctionDef) and n.name == 'get'), None)
+    if get is None:
+        raise ValueError('util.PositionsAllocator.get not found')
+
+    def is_array_target(t):
+        return (isinstance(t, ast.Name) and t.id == '_array') or (isinstance(t, ast.Attribute) and t.attr == '_array' and isinstance(t.value, ast.Name) and t.value.id == 'cls')
+
+    assigned = [0]
+    ok = [True]
+
+    def check_block(stmts):
+        for i, st in enumerate(stmts):
+            targets = st.targets if isinstance(st, ast.Assign) else ([st.target] if isinstance(st, ast.AnnAssign) and st.value is not None else [])
+            if any(is_array_target(t) for t in targets):
+                assigned[0] += 1
+                frozen = False
+                for later in stmts[i + 1:]:
+                    lt = later.targets if isinstance(later, ast.Assign) else []
+                    if any(is_array_target(t) for t in lt):
+                        break
+                    tgt = _is_flag_assign(later, False)
+                    if tgt is not None and is_array_target(tgt):
+                        frozen = True
+                        break
+                    if _is_flag_assign(later, True) is not None:
+                        break
+                if not frozen:
+                    ok[0] = False
+            for field in ('body', 'orelse', 'finalbody'):
+                sub = getattr(st, field, None)
+                if isinstance(sub, list) and not isinstance(st, (ast.FunctionDef, ast.ClassDef)):
+                    check_block(sub)
+    check_block(cls.body)
+    check_block(get.body)
+    if assigned[0] < 2:
+        raise ValueError('util.PositionsAllocator: expected an assignment of _array in the class body and in get()')
+    rets = [n for n in ast.walk(get) if isinstance(n, ast.Return)]
+    if not rets or not all(isinstance(r.value, ast.Subscript) and is_array_target(r.value.value) for r in rets):
+        ok[0] = False
+    if any(_is_flag_assign(n, True) is not None for n in ast.walk(cls)):
+        ok[0] = False
+    return ok[0]
+
+
 def generate(repo):
     tab = setstate_table(repo)
     cen = freeze_census(repo)
@@ -1861,6 +2278,8 @@ def generate(repo):
              f'Definition pickle_flag_block : bool := {b(tab["TypeBlocks"][0][1])}.',
              f'Definition pickle_flag_arraygo : bool := {b(tab["ArrayGO"][0][1])}.',
              'Definition pickle_flags_series : list bool := pickle_flag_series_values :: pickle_flags_index.',
+             '(* util.PositionsAllocator: every assignment of the shared _array is followed by a freeze of that very array; get() returns a slice of it *)',
+             f'Definition positions_allocator_publishes_frozen : bool := {b(allocator_audit(repo))}.',
              'Definition pickle_flags_frame1 : list bool := pickle_flag_block :: (pickle_flags_index ++ pickle_flags_index)%list.',
              '',
              '(* census of the freeze protocol: (function, protect sites = `flags.writeable = False` statements + immutable_filter calls, thaw sites) *)',
